@@ -231,7 +231,7 @@ func (st *c13Stack) exoticSegs() []string {
 }
 
 func (st *c13Stack) genSeg(rt *rapid.T) string {
-	if rapid.IntRange(0, 7).Draw(rt, "segKind") == 0 {
+	if rapid.IntRange(0, 7).Draw(rt, "segKind") == 7 {
 		return rapid.SampledFrom(st.exoticSegs()).Draw(rt, "xseg")
 	}
 	return rapid.SampledFrom(c13CoreSegs).Draw(rt, "seg")
